@@ -13,7 +13,10 @@ META = {
     "level_note": "By construction close to the definition of the check; the weight is on the tie. Trusted / modelled: the OS realpath(3) behind std::fs::canonicalize (model: components left to right, '..' physical, 40-symlink limit, ENOTDIR for a non-directory followed by anything), Path::starts_with as component-wise prefix, PathBuf::join; permissions (the check runs as the current user, no unreadable directories), mount points, hard links, case-insensitive or normalising file systems, time-of-check/time-of-use races between validate_path and the later read are out of scope.",
 }
 
-NAMES = ["a", "b", "sub", "d", "f.txt", "g", "a b", "é", "..x", "x..", ".h", "~", "%2e%2e", "c\\d", "名", "...", "-", "ÿ"]
+W, O, W2, WL = "wk9", "out9", "wk92", "wl9"      # work dir, outside dir, sibling sharing the prefix, symlink to the work dir
+ALL_NAMES = ["a", "b", "sub", "d", "f.txt", "g", "a b", "é", "..x", "x..", ".h", "~", "%2e%2e", "c\\d", "名", "...", "-", "ÿ"]
+# symlinks to "/" and ".." chains lead into the real / and /tmp, which the model does not describe: names that exist there are not used
+NAMES = [n for n in ALL_NAMES if not os.path.lexists("/" + n) and not os.path.lexists("/tmp/" + n)]
 
 
 def gen_tree(rng, base_name):
@@ -35,8 +38,8 @@ def gen_tree(rng, base_name):
     o = gen_dir(1, False)
     w.setdefault("sub", ("dir", {"f.txt": ("file",)}))
     o.setdefault("f.txt", ("file",))
-    spec = {"w": ("dir", w), "o": ("dir", o), "w2": ("dir", {"f.txt": ("file",)}),
-            "wl": ("link", rng.choice(["w", base + "/w", "o", "w/sub"]))}
+    spec = {W: ("dir", w), O: ("dir", o), W2: ("dir", {"f.txt": ("file",)}),
+            WL: ("link", rng.choice([W, base + "/" + W, O, W + "/sub"]))}
     return spec
 
 
@@ -50,22 +53,22 @@ def gen_target(rng, base, depth, inside):
     if r == 2:
         return "sub"
     if r == 3:
-        return up + ("o" if inside else "w") + "/" + rng.choice(["f.txt", "sub", ""])
+        return up + (O if inside else W) + "/" + rng.choice(["f.txt", "sub", ""])
     if r == 4:
-        return base + "/" + rng.choice(["o/f.txt", "o", "w/sub", "w/sub/f.txt", "w", "w2/f.txt"])
+        return base + "/" + rng.choice([O + "/f.txt", O, W + "/sub", W + "/sub/f.txt", W, W2 + "/f.txt"])
     if r == 5:
         return "./" + rng.choice(NAMES) + "/../" + rng.choice(NAMES)
     if r == 6:
-        return up + "w2"
+        return up + W2
     if r == 7:
-        return up + ".." + "/" + os.path.basename(base) + "/" + rng.choice(["w", "o"])
+        return up + ".." + "/" + os.path.basename(base) + "/" + rng.choice([W, O])
     if r == 8:
         return "/"
     if r == 9:
         return ".."
     if r == 10:
         return "."
-    return up + rng.choice(["w", "o"]) + "/" + rng.choice(NAMES)
+    return up + rng.choice([W, O]) + "/" + rng.choice(NAMES)
 
 
 def all_paths(spec, prefix=""):
@@ -80,10 +83,10 @@ def all_paths(spec, prefix=""):
 
 def gen_paths(rng, spec, base, n):
     """request strings, relative to the work directory <base>/w (or whatever wd is)"""
-    inside = [p[2:] for p in all_paths(spec) if p.startswith("w/")]
-    outside = [p for p in all_paths(spec) if not p.startswith("w/")]
-    out = ["", ".", "..", "/", "sub/f.txt", "../o/f.txt", "../w2/f.txt", base + "/o/f.txt", base + "/w/sub/f.txt", "sub/../../o", "sub/f.txt/", "sub/f.txt/.", "sub/f.txt/..",
-           "a\u0000b", "../w/sub/f.txt", "sub//f.txt", "./sub/./f.txt", "..//w"]
+    inside = [p[len(W) + 1:] for p in all_paths(spec) if p.startswith(W + "/")]
+    outside = [p for p in all_paths(spec) if not p.startswith(W + "/")]
+    out = ["", ".", "..", "/", "sub/f.txt", "../" + O + "/f.txt", "../" + W2 + "/f.txt", base + "/" + O + "/f.txt", base + "/" + W + "/sub/f.txt", "sub/../../" + O, "sub/f.txt/", "sub/f.txt/.", "sub/f.txt/..",
+           "a\u0000b", "../" + W + "/sub/f.txt", "sub//f.txt", "./sub/./f.txt", "..//" + W]
     while len(out) < n:
         r = rng.below(10)
         if r < 3 and inside:
@@ -91,12 +94,12 @@ def gen_paths(rng, spec, base, n):
         elif r < 5:
             p = "../" + rng.choice(outside)
         elif r < 6:
-            p = base + "/" + rng.choice(inside and ["w/" + rng.choice(inside)] or ["w"] + outside)
+            p = base + "/" + rng.choice(inside and [W + "/" + rng.choice(inside)] or [W] + outside)
         elif r < 8:
-            parts = [rng.choice(NAMES + ["..", "..", ".", "", "sub", "o", "w", "w2"]) for _ in range(rng.range(1, 5))]
+            parts = [rng.choice(NAMES + ["..", "..", ".", "", "sub", O, W, W2]) for _ in range(rng.range(1, 5))]
             p = "/".join(parts)
         else:
-            p = (rng.choice(inside) if inside else "sub") + "/" + rng.choice(["..", "../..", "../../o", ".", "", "../" + rng.choice(NAMES)])
+            p = (rng.choice(inside) if inside else "sub") + "/" + rng.choice(["..", "../..", "../../" + O, ".", "", "../" + rng.choice(NAMES)])
         if rng.chance(1, 10):
             p += "/"
         if rng.chance(1, 15):
@@ -196,7 +199,7 @@ def chain_case(n):
     w = {"f.txt": ("file",)}
     for i in range(n):
         w["l%d" % i] = ("link", "l%d" % (i + 1) if i + 1 < n else "f.txt")
-    return {"w": ("dir", w), "o": ("dir", {})}
+    return {W: ("dir", w), O: ("dir", {})}
 
 
 def check(run):
@@ -219,12 +222,12 @@ def check(run):
     cases = []
     tag = "path-%d" % os.getpid()
     for n in (39, 40, 41):
-        cases.append((chain_case(n), "w", ["l0", "l1", "l%d" % (n - 1), "f.txt"]))
+        cases.append((chain_case(n), W, ["l0", "l1", "l%d" % (n - 1), "f.txt"]))
     ntrees = 45 if run.tier == "quick" else 500
     for i in range(ntrees):
         name = "%s-%d" % (tag, len(cases))
         spec = gen_tree(rng, name)
-        wd_rel = rng.choice(["w", "w", "w", "w", "w", "w", "wl", "wl", "w/sub", "w/sub", "w/sub", "missing"])
+        wd_rel = rng.choice([W] * 6 + [WL] * 2 + [W + "/sub"] * 3 + ["missing"])
         cases.append((spec, wd_rel, gen_paths(rng, spec, "/tmp/" + name, 36)))
     exprs = []
     impl = []
